@@ -63,3 +63,12 @@ def KF_C05_floodfill_after_value_change(div):
     tree = ops[0]['a']
     used = [kinds['A']] + ([kinds['B']] if 'B' in tree else [])
     return 'flood' in used and any(a['op'] in ('UpdateComponents', 'UpdateFromData') for a in ops[:-1])
+
+
+KF_C12_CAPTURED = ('glue.viewers.histogram.layer_artist.HistogramLayerArtist', 'glue.viewers.profile.layer_artist.ProfileLayerArtist',
+                   'glue.dialogs.link_editor.state.EditableLinkFunctionState', 'glue.dialogs.link_editor.state.LinkEditorState')
+
+
+def KF_C12_patch_captures_live_classes(div):
+    """state_path_patches.txt redirects four class paths that this package still defines as concrete, serialisable classes."""
+    return div.kind == 'patch_capture' and div.behaviour.get('key') in KF_C12_CAPTURED
